@@ -307,34 +307,44 @@ func solveOne(c *Ctx, ob *Obligation, entryFacts []*Term, dir string, idx int, t
 		}
 		return
 	}
-	// stage 2: race
+	// stage 2: race; an undecided race is run once more with twice the time (a busy machine makes
+	// solvers time out on goals they decide in a fraction of a second otherwise)
 	type r struct {
 		res, name, text string
 		secs            float64
 	}
-	ctx, cancel := context.WithCancel(context.Background())
-	defer cancel()
-	ch := make(chan r, len(raceSolvers))
-	for _, sp := range raceSolvers {
-		sp := sp
-		go func() {
-			res, secs, text := runSolver(ctx, sp, ob.Query, timeoutMs)
-			ch <- r{res, sp.name, text, secs}
-		}()
+	race := func(tmo int) r {
+		ctx, cancel := context.WithCancel(context.Background())
+		defer cancel()
+		ch := make(chan r, len(raceSolvers))
+		for _, sp := range raceSolvers {
+			sp := sp
+			go func() {
+				res, secs, text := runSolver(ctx, sp, ob.Query, tmo)
+				ch <- r{res, sp.name, text, secs}
+			}()
+		}
+		best := r{res: "timeout"}
+		for range raceSolvers {
+			x := <-ch
+			if x.res == "unsat" || x.res == "sat" {
+				best = x
+				cancel()
+				break
+			}
+			if x.res == "unknown" || (x.res == "error" && best.res != "unknown") {
+				best = x
+			}
+			if x.secs > ob.Secs {
+				ob.Secs = x.secs
+			}
+		}
+		return best
 	}
-	best := r{res: "timeout"}
-	for range raceSolvers {
-		x := <-ch
-		if x.res == "unsat" || x.res == "sat" {
-			best = x
-			cancel()
-			break
-		}
-		if x.res == "unknown" || (x.res == "error" && best.res != "unknown") {
-			best = x
-		}
-		if x.secs > ob.Secs {
-			ob.Secs = x.secs
+	best := race(timeoutMs)
+	if best.res != "unsat" && best.res != "sat" {
+		if again := race(2 * timeoutMs); again.res == "unsat" || again.res == "sat" {
+			best = again
 		}
 	}
 	ob.Status, ob.Solver, ob.Model = best.res, best.name, best.text
